@@ -1,6 +1,6 @@
 """C04 bound parameters are delivered to the right placeholders in every paramstyle.
 
-Engine I over vf.worlds.stmtfam.BIND_SHAPES (31 statement shapes with 2..7
+Engine I over vf.worlds.stmtfam.BIND_SHAPES (32 statement shapes with 2..7
 named binds in SELECT list, WHERE, HAVING, ORDER BY, LIMIT/OFFSET, CTEs
 (plain, chained, nesting, recursive, referenced from a subquery), scalar /
 EXISTS / FROM subqueries, JOIN ON, expanding IN (0..3 elements, NOT IN inside
@@ -10,7 +10,7 @@ CTE / ON CONFLICT DO UPDATE, UPDATE (SET vs WHERE order, correlated, FROM),
 DELETE, RETURNING with binds, executemany insert / update / delete and
 insertmanyvalues) x configurations (bind naming scheme incl. names that
 need escaping, which bind is literal_execute, IN length, values embedded in
-the binds vs passed at execution) within d deviations of the base, plus the
+the binds vs passed at execution; thorough: two sentinel value vectors), plus the
 *name-pair* family (every ordered pair of 13 bind names in one statement).
 
 Every case runs on nine engines: the proxy driver (vf.engines.paramproxy)
@@ -80,7 +80,7 @@ META = dict(
     technique="exhaustive small-scope enumeration of statement shapes x bind configurations x 6 paramstyles (+3 real drivers); "
     "driver-level trace decoded per paramstyle and compared with the literal_binds rendering; differential execution",
     design_ref="DESIGN.md §5 C04",
-    level_text="31 statement shapes x all configurations within 2 (quick) / all (thorough) deviations (bind naming scheme with "
+    level_text="32 statement shapes x the full product of configurations (bind naming scheme with "
     "names needing escaping, literal_execute position, expanding IN length 0..3, embedded vs execution-time values, "
     "single vs executemany) are executed through a recording proxy DBAPI in each of the six paramstyles and through "
     "three real drivers. For every placeholder occurrence the value received by the driver must be the value of the "
@@ -94,8 +94,8 @@ META = dict(
     "(or a name pair whose escaped names coincide); outcomes = distinct (shape, rows) results",
     assumptions=["sentinel values are ints / short strings / NULL (no type-specific bind processors)", "SQLite 3.40 executes all styles via the proxy"],
     bounds=dict(
-        quick="31 shapes, configurations within 2 deviations; all 156 ordered name pairs; 9 engines each",
-        thorough="31 shapes, full configuration product; all 156 ordered name pairs x literal_execute x modes; 9 engines each",
+        quick="32 shapes, full configuration product (naming scheme x literal_execute position x IN length x value mode); all 156 ordered name pairs x 2 modes; 9 engines each",
+        thorough="the same with two sentinel value vectors (second: shifted ints, strings containing a quote and %) and reversed executemany sets; name pairs x literal_execute position x modes; 9 engines each",
     ),
 )
 
@@ -279,8 +279,9 @@ def literal_text(E, stmt):
 def shape_case(E, shape, cfg):
     spec = F.BIND_SHAPES[shape]
     emb = dict(cfg, mode="embedded", le=None, ns=0)
+    alt = cfg.get("alt")
     if spec["kind"] == "many":
-        sets = spec["sets"]
+        sets = spec["sets"][::-1] if alt else spec["sets"]
         ref_texts = [literal_text(E, F.build_bind(shape, emb, V=vs)["stmt"]) for vs in sets]
 
         def builder():
@@ -294,13 +295,29 @@ def shape_case(E, shape, cfg):
 
         ordered = shape == "many_ins_returning_extra"
         return builder, ref_texts, True, ordered
-    ref_texts = [literal_text(E, F.build_bind(shape, emb)["stmt"])]
+    V = alt_values(spec["V"]) if alt else None
+    ref_texts = [literal_text(E, F.build_bind(shape, emb, V=V)["stmt"])]
 
     def builder():
-        b = F.build_bind(shape, cfg)
+        b = F.build_bind(shape, cfg, V=V)
         return b["stmt"], b["params"]
 
     return builder, ref_texts, spec["kind"] == "dml", spec["kind"] == "select"
+
+
+def alt_values(V):
+    """second sentinel vector (thorough tier): every int + 1, every string with a quote and a percent sign appended"""
+    out = []
+    for v in V:
+        if isinstance(v, bool) or v is None or isinstance(v, list):
+            out.append(v)
+        elif isinstance(v, int):
+            out.append(v + 1)
+        elif isinstance(v, str):
+            out.append(v + "'%")
+        else:
+            out.append(v)
+    return out
 
 
 def pair_case(E, n1, n2, mode, le):
@@ -322,7 +339,7 @@ def escaped(name):
 
 
 def cfg_key(cfg):
-    return "ns=%s le=%s inlen=%s mode=%s" % (cfg.get("ns"), cfg.get("le"), cfg.get("inlen"), cfg.get("mode"))
+    return "ns=%s le=%s inlen=%s mode=%s%s" % (cfg.get("ns"), cfg.get("le"), cfg.get("inlen"), cfg.get("mode"), " values=alt" if cfg.get("alt") else "")
 
 
 def pair_sig(cls, n1, n2):
@@ -358,8 +375,11 @@ def run_shard(shard, tier, rec):
     try:
         if shard[0] == "shape":
             shape = shard[1]
-            d = 2 if tier == "quick" else 9
-            for cfg in F.bind_cfgs(shape, d):
+            cases = [(cfg, 0) for cfg in F.bind_cfgs(shape, 9)]
+            if tier != "quick":
+                cases += [(cfg, 1) for cfg in F.bind_cfgs(shape, 9)]
+            for cfg, alt in cases:
+                cfg = dict(cfg, alt=alt) if alt else cfg
                 builder, ref_texts, is_dml, ordered = shape_case(E, shape, cfg)
                 probs, info = run_case(E, builder, ref_texts, is_dml, ordered, shape)
                 rec.case((shape, cfg_key(cfg)), nontrivial=info["nph"] >= 3)
